@@ -22,6 +22,103 @@ type thesCase struct {
 	ChunkMode uint32          `json:"chunkMode"`
 	Excepts   []spec.DropSpec `json:"excepts"`
 	Reuse     bool            `json:"reuse"` // pass previous list/iterator back as preallocation
+	// Listings are term enumerations with an automaton and/or a key range (Field is ignored:
+	// every listing runs on every thesaurus)
+	Listings []dictQuery `json:"listings,omitempty"`
+}
+
+func genThesListing(t *rapid.T, label string, vocab []string) dictQuery {
+	q := dictQuery{Auto: rapid.SampledFrom([]string{"lev", "prefix", "all", "nil", "exact", "contains", "lenmod3", "never"}).Draw(t, label+"auto")}
+	q.Arg = spec.B(rapid.SampledFrom(vocab).Draw(t, label+"arg"))
+	if q.Auto == "prefix" && len(q.Arg) > 1 && rapid.Bool().Draw(t, label+"cut") {
+		q.Arg = q.Arg[:1]
+	}
+	q.Dist = rapid.IntRange(1, 2).Draw(t, label+"dist")
+	bounds := append(append([]string{}, vocab...), "a", "h", "t", "\x7f", "\x00")
+	if gen.Chance(t, label+"hasStart", 60) {
+		q.HasStart, q.Start = true, spec.B(rapid.SampledFrom(bounds).Draw(t, label+"start"))
+	}
+	if gen.Chance(t, label+"hasEnd", 60) {
+		q.HasEnd, q.End = true, spec.B(rapid.SampledFrom(bounds).Draw(t, label+"end"))
+	}
+	if q.HasStart && q.HasEnd && !(string(q.Start) < string(q.End)) {
+		// keep the range well-formed: start < end
+		if q.Start == q.End {
+			q.HasEnd, q.End = false, ""
+		} else {
+			q.Start, q.End = q.End, q.Start
+		}
+	}
+	return q
+}
+
+// checkThesaurusListings runs every listing on every thesaurus and compares with the model:
+// exactly the left-hand terms the automaton accepts within [start, end), in ascending byte order.
+func checkThesaurusListings(prop string, seg segment.Segment, want *spec.Obs, listings []dictQuery, tag string) *Violation {
+	var v *Violation
+	err := drive.Safe(func() error {
+		ts, ok := seg.(segment.ThesaurusSegment)
+		if !ok {
+			return fmt.Errorf("%T is no ThesaurusSegment", seg)
+		}
+		var names []string
+		for n := range want.Thes {
+			names = append(names, n)
+		}
+		sort.Strings(names)
+		for _, name := range names {
+			th, err := ts.Thesaurus(name)
+			if err != nil {
+				return err
+			}
+			var sorted []string
+			for t := range want.Thes[name] {
+				sorted = append(sorted, t)
+			}
+			sort.Strings(sorted)
+			for qi, q := range listings {
+				a, err := buildAutomaton(q)
+				if err != nil {
+					continue
+				}
+				var exp []string
+				for _, t := range sorted {
+					if q.HasStart && t < string(q.Start) || q.HasEnd && t >= string(q.End) || !accepts(a, []byte(t)) {
+						continue
+					}
+					exp = append(exp, t)
+				}
+				var start, end []byte
+				if q.HasStart {
+					start = []byte(q.Start)
+				}
+				if q.HasEnd {
+					end = []byte(q.End)
+				}
+				itr := th.AutomatonIterator(a, start, end)
+				var got []string
+				for len(got) <= len(sorted)+3 {
+					e, err := itr.Next()
+					if err != nil {
+						return fmt.Errorf("thesaurus %q listing %d: %w", name, qi, err)
+					}
+					if e == nil {
+						break
+					}
+					got = append(got, e.Term)
+				}
+				if !(len(got) == 0 && len(exp) == 0) && !reflect.DeepEqual(got, exp) {
+					v = violation(prop, "thes/listing", "%sthesaurus %q listed with automaton %s(%q,%d) and range [%v %q, %v %q): got %q, model %q", tag, name, q.Auto, q.Arg, q.Dist, q.HasStart, q.Start, q.HasEnd, q.End, got, exp)
+					return nil
+				}
+			}
+		}
+		return nil
+	})
+	if err != nil {
+		return violation(prop, "thes/listing-error", "%s%v", tag, err)
+	}
+	return v
 }
 
 func genThesCase(t *rapid.T) thesCase {
@@ -32,6 +129,11 @@ func genThesCase(t *rapid.T) thesCase {
 	s := gen.GenSchema(t, o)
 	if rapid.Bool().Draw(t, "smallVocab") {
 		s.SynTerms = s.SynTerms[:4]
+	}
+	if len(s.Fields) > 0 && gen.Chance(t, "thesaurusSharesFieldName", 15) {
+		// a synonym collection named like an ordinary field: some documents of the batch carry the
+		// name as a text field, others as a synonym field
+		s.Thesauri[0] = s.Fields[0].Name
 	}
 	b := s.GenBatch(t, "b", gen.BatchOpts{MaxDocs: 12, MinDocs: 2, SynPct: 65})
 	c := thesCase{Batch: b, ChunkMode: gen.ChunkMode(t, "cm"), Reuse: rapid.Bool().Draw(t, "reuse")}
@@ -47,6 +149,9 @@ func genThesCase(t *rapid.T) thesCase {
 		}
 	}
 	c.Excepts = append(c.Excepts, sub)
+	for i, n := 0, rapid.IntRange(1, 4).Draw(t, "nListings"); i < n; i++ {
+		c.Listings = append(c.Listings, genThesListing(t, fmt.Sprintf("l%d", i), s.SynTerms))
+	}
 	return c
 }
 
@@ -233,8 +338,14 @@ func checkThesauri(prop string, seg segment.Segment, want *spec.Obs, excepts []s
 				if err != nil {
 					return err
 				}
-				if len(dterms) != 0 {
-					v = violation(prop, "thes/leaks-into-dictionary", "%sDictionary(%q) of a synonym field has terms %q", tag, name, dterms)
+				// (when ordinary text fields of the batch carry the same name, exactly their terms)
+				var wt []string
+				for t := range want.Index[name] {
+					wt = append(wt, t)
+				}
+				sort.Strings(wt)
+				if !(len(dterms) == 0 && len(wt) == 0) && !reflect.DeepEqual(dterms, wt) {
+					v = violation(prop, "thes/leaks-into-dictionary", "%sDictionary(%q), the name of a synonym field, has terms %q; the ordinary fields of that name have %q", tag, name, dterms, wt)
 					return nil
 				}
 			}
@@ -269,6 +380,9 @@ func runThesCase(c thesCase) *Violation {
 			return violation(prop, "thes/observation", "%s%s", tag, d)
 		}
 		v = checkThesauri(prop, seg, want, c.Excepts, c.Reuse, tag)
+		if v == nil {
+			v = checkThesaurusListings(prop, seg, want, c.Listings, tag)
+		}
 		closeFn()
 		if v != nil {
 			return v
@@ -316,6 +430,16 @@ var c12 = Check[thesCase]{
 		}
 		if c.Reuse {
 			cl = append(cl, "prealloc-reuse")
+		}
+		for _, q := range c.Listings {
+			if q.Auto != "nil" && (q.HasStart || q.HasEnd) {
+				cl = append(cl, "listing-with-automaton-and-range")
+			}
+		}
+		for th := range want.Thes {
+			if _, ok := want.Index[th]; ok {
+				cl = append(cl, "thesaurus-named-like-a-text-field")
+			}
 		}
 		return nt, dedup(cl)
 	},
